@@ -1,4 +1,5 @@
 import Model.Conv
+import Model.ConvReg
 import Generated.C17GoKinds
 import Drivers.Common
 /-! `vm_c17`: line protocol over `Model.Conv`, instantiated with the regenerated kind tables
@@ -12,6 +13,11 @@ import Drivers.Common
     → recv=<-|goval;…> res=<ok -|ok sval|throw e|panic p>
   gen <convert|index> <type> <sval> <hints>
     → ok goval | throw e | panic p
+  hist <entries> <ops> <hints>
+      entries : `owner|meth|fn|method|params|results` separated by `;` (the Go side: what each callee is)
+      ops     : `R|owner` (a registration) or `C|owner|meth|body|args` (a call) separated by `;`
+    → the answers of `Model.Conv.runPlain` to the call operations, in order, separated by ` ## `
+      (`unregistered` for a call of a callee whose owner has not been registered)
 
   goval : `<type>:<payload>`; payload i<dec> · f<hex16> · b0 · b1 · s<strterm> · o
   strterm : L<hex> · G14:<hex16> · G:<hex16> · V32:<hex16> · V64:<hex16> · O
@@ -168,6 +174,38 @@ def outcomeStr {α : Type} (f : α → String) : Outcome α → String
   | .throw e => "throw " ++ errStr e
   | .panic p => "panic " ++ panicStr p
 
+def traceStr (tr : Trace) : String :=
+  let recv := match tr.received with
+    | none => "-"
+    | some gs => ";".intercalate (gs.map goValStr)
+  let res := outcomeStr (fun (o : Option SVal) => match o with | none => "-" | some v => svalStr v) tr.result
+  s!"recv={recv} res={res}"
+
+def parseList' {α : Type} (sep : String) (f : String → Option α) (s : String) : Option (List α) :=
+  if s.isEmpty then some [] else (s.splitOn sep).mapM f
+
+def parseEntry (s : String) : Option (Callee × Path × Sig) :=
+  match s.splitOn "|" with
+  | [o, m, p, ps, rs] => do
+      let o ← o.toNat?
+      let m ← m.toNat?
+      let ps ← parseList parseType ps
+      let rs ← parseList parseType rs
+      some (⟨o, m⟩, (if p == "method" then Path.method else Path.fn), ⟨ps, rs⟩)
+  | _ => none
+
+/-- a registration (`inl owner`) or a call (`inr (callee, body, args)`) -/
+def parseOp (s : String) : Option (Nat ⊕ (Callee × (List GoVal → List GoVal) × List SVal)) :=
+  match s.splitOn "|" with
+  | ["R", o] => o.toNat?.map Sum.inl
+  | ["C", o, m, body, args] => do
+      let o ← o.toNat?
+      let m ← m.toNat?
+      let b ← parseBody body
+      let as ← parseList parseSVal args
+      some (.inr (⟨o, m⟩, b, as))
+  | _ => none
+
 def handle (line : String) : String :=
   match line.splitOn "\t" with
   | ["call", which, params, results, body, args, hints] =>
@@ -190,6 +228,26 @@ def handle (line : String) : String :=
       let r := if which == "index" then convertFromIndex (prim hs) Generated.C17GoKinds.gen t v
                else convertValue (prim hs) Generated.C17GoKinds.gen t v
       outcomeStr goValStr r
+    | _, _, _ => "bad-request"
+  | ["hist", entries, ops, hints] =>
+    match parseList' ";" parseEntry entries, parseList' ";" parseOp ops, parseList parseHint hints with
+    | some es, some os, some hs =>
+      let bodies : List (List GoVal → List GoVal) := os.map fun o => match o with
+        | .inr (_, b, _) => b
+        | .inl _ => fun _ => []
+      let bodyAt : Nat → List GoVal → List GoVal := fun env => (bodies[env]?).getD (fun _ => [])
+      let U : Universe := fun c => match es.find? (fun e => e.1 == c) with
+        | some (_, p, sg) => ⟨p, sg, bodyAt⟩
+        | none => ⟨.fn, ⟨[], []⟩, fun _ _ => []⟩
+      let cfg : Cfg := ⟨prim hs, Generated.C17GoKinds.table, Generated.C17GoKinds.outTable,
+                        Generated.C17GoKinds.tableMethod, Generated.C17GoKinds.outTableMethod⟩
+      let hist : List Op := (os.zip (List.range os.length)).map fun (o, i) => match o with
+        | .inl owner => Op.register owner
+        | .inr (c, _, as) => Op.call c i as
+      let answers := (runPlain cfg U [] hist).zip os
+      " ## ".intercalate (answers.filterMap fun (t, o) => match o with
+        | .inl _ => none
+        | .inr _ => some (match t with | some tr => traceStr tr | none => "unregistered"))
     | _, _, _ => "bad-request"
   | _ => "bad-request"
 
